@@ -176,7 +176,7 @@ def check_case(spec):
         T = opts.solve_time
         solver = build.make_solver(
             dev, opts,
-            applied_vector_potential=build.make_vector_potential(spec["field"], dev, opts.field_units),
+            applied_vector_potential=build.make_vector_potential(spec["field"], dev, opts.field_units, opts.solve_time),
             terminal_currents=build.make_currents(spec["currents"]),
         )
         hist = sim.record_updates(solver)
